@@ -101,6 +101,11 @@ pub fn log(s: impl Into<String>) {
 impl Exec {
     /// Pick the next thread to run; called by the running thread `me` while it holds the baton.
     fn schedule(&self, g: &mut State, me: usize, label: &'static str) {
+        self.schedule_x(g, me, label, false)
+    }
+
+    /// `voluntary`: the thread offers the baton (a yield); switching away is not a preemption.
+    fn schedule_x(&self, g: &mut State, me: usize, label: &'static str, voluntary: bool) {
         let cur_enabled = g.st[me] == St::Enabled;
         let mut opts: Vec<usize> = Vec::new();
         if cur_enabled {
@@ -137,7 +142,7 @@ impl Exec {
             g.trace.push(Decision {
                 n: opts.len(),
                 chosen: c,
-                cur_enabled,
+                cur_enabled: cur_enabled && !voluntary,
                 env: false,
                 label,
                 tid: me,
@@ -172,6 +177,20 @@ pub fn point(label: &'static str) {
             return;
         }
         e.schedule(&mut g, me, label);
+        e.cv.notify_all();
+    }
+    e.wait_for_baton(me);
+}
+
+/// A voluntary yield: a switch point whose alternatives cost no preemption.
+pub fn yield_now(label: &'static str) {
+    let Some((e, me)) = cur_sched() else { return };
+    {
+        let mut g = e.m.lock().unwrap();
+        if g.aborted.is_some() || std::thread::panicking() {
+            return;
+        }
+        e.schedule_x(&mut g, me, label, true);
         e.cv.notify_all();
     }
     e.wait_for_baton(me);
